@@ -24,17 +24,20 @@ var c28Verbose = os.Getenv("C28_VERBOSE") != ""
 
 func c28DrawSeg(rt *rapid.T) C28Seg {
 	s := C28Seg{T: rapid.IntRange(0, 1).Draw(rt, "t")}
-	switch rapid.IntRange(0, 9).Draw(rt, "shape") {
+	switch rapid.IntRange(0, 11).Draw(rt, "shape") {
 	case 0, 1, 2:
 		s.N = rapid.IntRange(1, 4).Draw(rt, "n")
 	case 3, 4:
-		s.N = rapid.IntRange(5, 60).Draw(rt, "n")
+		s.N = rapid.IntRange(5, 40).Draw(rt, "n")
 	case 5:
-		s.N = rapid.SampledFrom([]int{100, 300, 1000, 4000}).Draw(rt, "n")
-	case 6, 7:
+		s.N = rapid.SampledFrom([]int{60, 100, 200}).Draw(rt, "n")
+	case 6, 7, 8:
+		// park consensus right before a physical write / the snapshot refresh /
+		// the release of the previous snapshot / its next ABCI call
 		s.T = 0
-		s.Until = rapid.SampledFrom([]string{C28KBatch, C28KBatch, C28KSnap, C28KSnapClose, C28KOp}).Draw(rt, "until")
-	case 8:
+		s.Until = rapid.SampledFrom([]string{C28KBatch, C28KBatch, C28KSnap, C28KSnapClose, C28KSnapClose, C28KOp}).Draw(rt, "until")
+	case 9:
+		// finish the current query (park the query thread before the next one)
 		s.T = 1
 		s.Until = C28KOp
 	default:
@@ -89,7 +92,9 @@ func c28Draw(rt *rapid.T) C28Case {
 			q.Key = rapid.SampledFrom(keysUsed).Draw(rt, "key")
 		case 5:
 			q.Kind = "qfile"
-			q.Pkg = rapid.IntRange(0, npkg).Draw(rt, "pkg")
+			if npkg > 0 {
+				q.Pkg = rapid.IntRange(0, npkg-1).Draw(rt, "pkg")
+			}
 		case 6, 7:
 			q.Kind = "acct"
 			q.Acc = rapid.IntRange(0, c.NAcc-1).Draw(rt, "acc")
@@ -109,10 +114,6 @@ func c28Draw(rt *rapid.T) C28Case {
 	}
 	return c
 }
-
-// c28Inconclusive carries a harness-side stall out of Exec: it must never be
-// reported as a violation.
-type c28Inconclusive struct{ msg string }
 
 func c28Exec(t *testing.T) func(ctx *vk.Ctx, c C28Case) error {
 	return func(ctx *vk.Ctx, c C28Case) error {
@@ -146,6 +147,7 @@ func c28Exec(t *testing.T) func(ctx *vk.Ctx, c C28Case) error {
 		thr := make([]*C28Thread, 2)
 		ready := make(chan struct{}, 2)
 		var consPanic, queryPanic any
+		var isolated []bool
 		g.Arm()
 		go func() { // consensus
 			th := g.Register(0)
@@ -176,6 +178,7 @@ func c28Exec(t *testing.T) func(ctx *vk.Ctx, c C28Case) error {
 				obs.Lo = append(obs.Lo, lo)
 				obs.Hi = append(obs.Hi, hi)
 				obs.Strad = append(obs.Strad, th.OpStraddled())
+				isolated = append(isolated, th.OpIsolated())
 			}
 		}()
 		<-ready
@@ -203,8 +206,15 @@ func c28Exec(t *testing.T) func(ctx *vk.Ctx, c C28Case) error {
 		for i, a := range obs.Answers {
 			q := c.Queries[i]
 			h, err := C28Check(ref, c, q, a, obs.Lo[i], obs.Hi[i])
+			// the known divergence: every read of the query was served by ONE
+			// snapshot (isolation worked) yet the height it loaded is older
+			if _, ok := err.(*C28Mix); ok && isolated[i] && ctx.Known(C28KeyStaleHeight) {
+				ctx.Class("known:" + C28KeyStaleHeight)
+				nt = true
+				continue
+			}
 			if err != nil {
-				return fmt.Errorf("query #%d (started with height %d committed, returned with commit of %d entered, straddled a write: %v): %v", i, obs.Lo[i], obs.Hi[i], obs.Strad[i], err)
+				return fmt.Errorf("query #%d (started with height %d committed, returned with commit of %d entered, straddled a write: %v, all reads from one snapshot: %v): %v", i, obs.Lo[i], obs.Hi[i], obs.Strad[i], isolated[i], err)
 			}
 			ctx.Class("q:" + q.Kind)
 			if !a.OK() {
